@@ -36,8 +36,9 @@ impl<'a> MtHelpers<'a> {
         });
         let error_type: Type = match associated_error {
             Some(error) => parse_quote!(#error),
-            // This should never happen as the `interface` macro requires the trait to have an associated `Error` type
-            None => unreachable!(),
+            // The missing `Error` type is already reported by `InterfaceInput::new`. Panicking
+            // here would replace that diagnostic with "custom attribute panicked".
+            None => parse_quote!(Error),
         };
 
         Self {
